@@ -316,7 +316,7 @@ def run_case(case: Any) -> dict[str, Any]:
     sigs = []
     variants: list[dict[str, Any]] = []
     for f in e2.fault_positions(tree):
-        variants.append({"fault": {**f, "exc": rng.choice(ORDINARY_EXC_KINDS + ["Group", "StartError"])}, "timeout": rng.choice([None, 1e6])})
+        variants.append({"fault": {**f, "exc": rng.choice(ORDINARY_EXC_KINDS + ["Group", "Group1", "StartError"])}, "timeout": rng.choice([None, 1e6])})
     for t in e2.timeout_positions(tree):
         variants.append({"timeout": t})
     if case.get("only") is not None:
